@@ -53,8 +53,14 @@ Definition bernstein (nm : list byte) (hsize : Z) : Z :=
   let h := bern_loop nm (u32 (Zlen nm)) in
   s32 (Z.land (Z.lxor (Z.lxor h (h / 1024)) (h / 1048576)) (u32 (hsize - 1))).
 
-(* ncmpio_util.c: atoi(value); errno != 0 || size < 0 -> default *)
+(* ncmpio_util.c: atoi(value); errno != 0 || size <= 0 -> default *)
 Definition hint_size (given : option Z) (dflt : Z) : Z :=
+  match given with
+  | Some v => if v <=? 0 then dflt else v
+  | None => dflt
+  end.
+(* before repair c39b68a0 only negative sizes fell back to the default: size 0 was accepted *)
+Definition hint_size_old (given : option Z) (dflt : Z) : Z :=
   match given with
   | Some v => if v <? 0 then dflt else v
   | None => dflt
@@ -1007,7 +1013,10 @@ Definition c_copy_att (w : cworld) (s v : Z) (nm : list byte) (s2 v2 : Z) : opti
         match c_copy_read fin v nm with
         | None => None
         | Some (inl rc) => Some (w, [rc])
-        | Some (inr a) => c_on_file w s2 (fun f => c_copy_write f v2 nm a ((s =? s2) && (v =? v2)))
+        | Some (inr a) =>
+          (* CDF-1 and CDF-2 files cannot hold attributes of the CDF-5 data types (repair 549716e0) *)
+          if (cf_fmt fout <? 5) && (a_type a >? 6) then Some (w, [NC_ESTRICTCDF2])
+          else c_on_file w s2 (fun f => c_copy_write f v2 nm a ((s =? s2) && (v =? v2)))
         end
     | _, _ => Some (w, [UNMODELLED])
     end
@@ -1437,7 +1446,9 @@ Definition s_copy_att (w : sworld) (s v : Z) (nm : list byte) (s2 v2 : Z) : swor
         match s_copy_read fin v nm with
         | None => (w, [UNMODELLED])
         | Some (inl rc) => (w, [rc])
-        | Some (inr a) => s_on_file w s2 (fun f => s_copy_write f v2 nm a ((s =? s2) && (v =? v2)))
+        | Some (inr a) =>
+          if (h_format (sf_hdr fout) <? 5) && (a_type a >? 6) then (w, [NC_ESTRICTCDF2])
+          else s_on_file w s2 (fun f => s_copy_write f v2 nm a ((s =? s2) && (v =? v2)))
         end
     | _, _ => (w, [UNMODELLED])
     end
